@@ -407,6 +407,8 @@ int main(void)
             continue;
         }
         if (!strncmp(l, "configure", 9)) {
+            printf("A configure call\n");
+            fflush(stdout);
             enum AcquireStatusCode r = acquire_configure(rt, &props);
             printf("A configure -> %s state=%s\n", r == AcquireStatus_Ok ? "ok" : "ERR", state_name(acquire_get_state(rt)));
         } else if (!strncmp(l, "start", 5)) {
